@@ -59,6 +59,21 @@ theorem BPos_min (b : Bytes) (x y : Nat) (hx : BPos b x) (hy : BPos b y) : BPos 
   · rw [Nat.min_eq_left h]; exact hx
   · rw [Nat.min_eq_right (by omega)]; exact hy
 
+theorem colorEnd_facts (s : List Char) (start stop le : Nat) (h2 : BPos (bytesOf s) stop) (c1 : BPos (bytesOf s) le)
+    (hlt : start < stop) (c2 : stop - 1 ≤ le) :
+    BPos (bytesOf s) (colorEndOf (bytesOf s) start stop le) ∧ start ≤ colorEndOf (bytesOf s) start stop le ∧
+      colorEndOf (bytesOf s) start stop le ≤ le := by
+  have hce : BPos (bytesOf s) (min stop le) := BPos_min _ _ _ h2 c1
+  unfold colorEndOf
+  simp only
+  split
+  · rename_i h
+    obtain ⟨_, g2, g3⟩ := h
+    have hlt' := lt_of_getElem?_some _ _ _ g3
+    exact ⟨⟨boundary_after_lead s _ _ g3, by omega⟩, by omega, by have := Nat.min_le_right stop le; omega⟩
+  · have : start ≤ min stop le := by rw [Nat.le_min]; omega
+    exact ⟨hce, this, Nat.min_le_right _ _⟩
+
 /-- `build_pretty_string_item` returns for every non-empty region whose ends are character boundaries -/
 theorem buildItem_total (s : List Char) (start stop : Nat) (isRemoval coloring : Bool) (lr : Nat × Nat)
     (h1 : BPos (bytesOf s) start) (h2 : BPos (bytesOf s) stop) (hlt : start < stop) :
@@ -74,10 +89,11 @@ theorem buildItem_total (s : List Char) (start stop : Nat) (isRemoval coloring :
   generalize hls : lineStartOf (bytesOf s) start = ls at a1 a2
   generalize hles : lineStartOf (bytesOf s) (stop - 1) = les at b1 b2
   generalize hle : lineEndOf (bytesOf s) (stop - 1) = le at c1 c2
-  have hce : BPos (bytesOf s) (min stop le) := BPos_min _ _ _ h2 c1
+  obtain ⟨hce, hce1, hce2⟩ := colorEnd_facts s start stop le h2 c1 hlt c2
+  generalize hcev : colorEndOf (bytesOf s) start stop le = ce at hce hce1 hce2
   have e1 := slice_ok (bytesOf s) ls start a1 h1 a2
-  have e2 := slice_ok (bytesOf s) start (min stop le) h1 hce (by omega)
-  have e3 := slice_ok (bytesOf s) (min stop le) le hce c1 (Nat.min_le_right _ _)
+  have e2 := slice_ok (bytesOf s) start ce h1 hce hce1
+  have e3 := slice_ok (bytesOf s) ce le hce c1 hce2
   have e4 := slice_ok (bytesOf s) les stop b1 h2 (by omega)
   have t1 : countTabs (((bytesOf s).take start).drop ls) ≤ start - ls := by
     have := countTabs_le (((bytesOf s).take start).drop ls)
@@ -88,7 +104,7 @@ theorem buildItem_total (s : List Char) (start stop : Nat) (isRemoval coloring :
     simp only [List.length_drop, List.length_take] at this
     omega
   unfold buildItem
-  simp only [bind, Except.bind, pure, Except.pure, subU, hls, hles, hle]
+  simp only [bind, Except.bind, pure, Except.pure, subU, hls, hles, hle, hcev]
   rw [if_pos (by omega : start ≤ stop)]
   simp only
   rw [if_neg (by simp [hne]; omega)]
